@@ -110,8 +110,18 @@ a("ceil", 9, lambda x: int(math.ceil(x)))
 a("floor", 9, lambda x: int(math.floor(x)))
 a("trunc", 9, int, 1)
 
-a("e", 11, lambda x, y: x * 10**y)
-a("E", 11, lambda x, y: x * 10**y)
+
+
+def _scientific(mantissa, exponent):
+    if exponent > 400:
+        # beyond the float range: raise OverflowError like the other operators
+        # instead of building an integer with that many digits
+        return mantissa * 10.0**exponent
+    return mantissa * 10**exponent
+
+
+a("e", 11, _scientific)
+a("E", 11, _scientific)
 
 a("*", 8, lambda x, y: x * y)
 a("/", 8, lambda x, y: x / y)
